@@ -112,7 +112,8 @@ unit(id="fndecl.recreate", src=DECL, path=[("impl", "Recreate for FunctionDeclar
 # results is recorded in a ghost history `pulled` (injected at the top of the loop body) and the obligations are loop
 # invariants / assertions over it, carried by markers (ensures cannot mention a ghost local).
 COLLECT = "src/instruction/reduce/collect.rs"
-_PUSH_HIST = ("proof {{ assert(pulled.push(tuple).drop_last() =~= pulled); pulled = pulled.push(tuple); }}\n")
+_PUSH_HIST = ("proof {{ assert(pulled.push(tuple).drop_last() =~= pulled); pulled = pulled.push(tuple); "
+              "if continuing(tuple) {{ assert(kept_elems(pulled).drop_last() =~= kept_elems(pulled.drop_last())); }} }}\n")
 unit(id="collect.exec", src=COLLECT, path=[("fn", "exec")], mod="collect", fragments=["iterators"],
      fn_attrs=["#[verifier::exec_allows_no_decreases_clause]"],
      requires=["var is Function", "typed_as_iterator(var->Function_0)"],
@@ -168,9 +169,6 @@ unit(id="reduce.exec", src=REDUCE, path=[("impl", "Exec for Reduce"), ("fn", "ex
           "            ensures\n"
           "                forall|i: int| 0 <= i < pulled.len() - 1 ==> continuing(#[trigger] pulled[i]),\n"
           "        {\n            " + _PUSH_HIST.format()),
-         ("result = function.exec_with_args(",
-          "proof { let xs = kept_elems(pulled); assert(xs.drop_last() =~= kept_elems(pulled.drop_last())); }\n"
-          "            result = function.exec_with_args("),
          ("Ok(result)\n",
           "assert(fold_seq(*function, init0, kept_elems(pulled)) == Ok::<Variable, ExecError>(result)) "
           "/*@obl:reduce.exec.is_the_left_fold_over_the_elements_of_the_continuing_pulls_in_pull_order*/;\n"
@@ -285,9 +283,6 @@ unit(id="partition.exec", src=PART, path=[("fn", "exec")], mod="partition", frag
           "        ensures\n"
           "            forall|i: int| 0 <= i < pulled.len() - 1 ==> continuing(#[trigger] pulled[i]),\n"
           "    {\n        " + _PUSH_HIST.format()),
-         ("if let Variable::Bool(true) = function.exec_with_args(",
-          "proof { let xs = kept_elems(pulled); assert(xs.drop_last() =~= kept_elems(pulled.drop_last())); }\n"
-          "        if let Variable::Bool(true) = function.exec_with_args("),
      ],
      ensures=[
          ("partition.exec.first_array_holds_the_accepted_elements_in_pull_order", ["C11"], None),
